@@ -14,6 +14,7 @@ WHATIFS = {
     "noResetScratch": ("TRUE", "FALSE", "TRUE", "TRUE", "HistIndep"),
     "noInPlace": ("TRUE", "TRUE", "FALSE", "TRUE", "HistIndep"),
     "noCopy": ("TRUE", "TRUE", "TRUE", "FALSE", "InputsReadOnly"),
+    "noRebuildImports": ("TRUE", "TRUE", "TRUE", "TRUE", "CtxImportsCurrent"),
 }
 
 CFG = """SPECIFICATION Spec
@@ -26,6 +27,8 @@ CONSTANTS
   Residue <- MCResidue
   Sensitive <- MCSensitive
   Rewriters <- MCRewriters
+  HasImports <- MCHasImports
+  RebuildImports = %s
   ResetBuf = %s
   ResetScratch = %s
   InPlaceInfo = %s
@@ -46,7 +49,7 @@ def design(ctx, whatifs, coverage=False):
             raise vlib.Infra("Lifecycle actions never taken in the exhaustive model: %s" % acts)
     for w in whatifs:
         a, b, c, d, inv = WHATIFS[w]
-        r = ctx.tlc("LifecycleMC", cfg_text=CFG % (a, b, c, d, inv), workers=4, timeout=300, expect="violation")
+        r = ctx.tlc("LifecycleMC", cfg_text=CFG % ("FALSE" if w == "noRebuildImports" else "TRUE", a, b, c, d, inv), workers=4, timeout=300, expect="violation")
         if r.violated != inv:
             raise vlib.Infra("what-if %s refuted %s, expected %s" % (w, r.violated, inv))
         out[w] = {"refuted": inv, "distinct": r.distinct}
@@ -104,12 +107,15 @@ def repair(lines, nonconfs):
     for i, e in enumerate(ev, start=1):
         e = dict(e)
         kinds = {n["kind"] for n in bad.get(i, [])}
-        if e["ev"] == "Walked" and kinds & {"ResultDiffers", "InputMutated", "WarnObligation"}:
+        if e["ev"] == "SetFile" and "StaleContext" in kinds:
+            e["ctxOK"] = True
+        if e["ev"] == "Walked" and kinds & {"ResultDiffers", "InputMutated", "WarnObligation", "SkipFlagLeft"}:
             if "ResultDiffers" in kinds:
                 fix_ret[e["c"]] = e["fresh"]
             e["got"] = e["fresh"]
             e["fpSame"] = True
             e["warnOK"] = True
+            e["skipClear"] = True
         if e["ev"] == "CheckBegin" and "BufNotEmpty" in kinds:
             e["bufLen"] = 0
         if e["ev"] == "SetPkg" and "InfoIdentity" in kinds:
@@ -124,7 +130,7 @@ def repair(lines, nonconfs):
                         e["ret"] = p["got"]
                         break
         if e["ev"] in ("CheckPanic", "CheckTimeout"):
-            out.append({"ev": "Walked", "c": e["c"], "file": e["file"], "got": "", "fresh": "", "fpSame": True, "warnOK": True})
+            out.append({"ev": "Walked", "c": e["c"], "file": e["file"], "got": "", "fresh": "", "fpSame": True, "warnOK": True, "skipClear": True})
             out.append({"ev": "CheckEnd", "c": e["c"], "ret": ""})
             continue
         out.append(e)
